@@ -8,6 +8,7 @@ mod fsim;
 mod jsgen;
 mod mapgen;
 mod prng;
+mod scope;
 mod smap;
 
 use driver::{Engine, Tier};
@@ -144,6 +145,28 @@ fn real_main(args: &[String]) -> i32 {
     }
 }
 
+/// sources of the static pass of C06 (H6): the generators of C13 / C16, a pure function of (kind, seed)
+fn h6_source(kind: &str, seed: u64) -> String {
+    let mut rng = prng::Rng::new(seed ^ 0x4836);
+    match kind {
+        "program" => {
+            let mut o = jsgen::GenOpts::small();
+            o.strict = rng.chance(1, 2);
+            o.comments = rng.chance(1, 3);
+            o.items = 4;
+            jsgen::gen_program(&mut rng, o).0
+        }
+        "corpus" => jsgen::gen_corpus(&mut rng, 6),
+        "module" => jsgen::gen_module(&mut rng, 4),
+        "repeat" => jsgen::gen_repeat(&mut rng, 24),
+        "wide" => {
+            let n = 2 + rng.below(40);
+            jsgen::gen_wide(&mut rng, n)
+        }
+        _ => jsgen::gen_zoo(&mut rng, 6),
+    }
+}
+
 /// `simrw batch`: serve the real rewriter to the Node engine. stdin: {"jobs":[{cfg, prng_seed, file, code, fs?}]}
 /// stdout: {"results":[{"ok": <what Rewriter::rewrite serialises>} | {"err": "<message>"} | {"panic": "..."}]}
 fn batch_main() -> i32 {
@@ -189,13 +212,35 @@ fn batch_main() -> i32 {
             _ => log::LevelFilter::Off,
         });
         let reader = fsim::SimFileReader::new(&fs, &fsim::FaultPlan::clean());
-        let code = job["code"].as_str().unwrap_or("").to_string();
+        // C06 H6: the source may be asked for by generator kind and seed instead of being sent
+        let code = match job.get("gen") {
+            Some(g) if g.is_object() => h6_source(g["kind"].as_str().unwrap_or("zoo"), g["seed"].as_u64().unwrap_or(1)),
+            _ => job["code"].as_str().unwrap_or("").to_string(),
+        };
+        let source_for_answer = if job.get("gen").map(|g| g.is_object()).unwrap_or(false) { Some(code.clone()) } else { None };
         let file = job["file"].as_str().unwrap_or("").to_string();
         let r = std::panic::catch_unwind(std::panic::AssertUnwindSafe(|| {
             native_iast_rewriter::verif_hooks::rewrite_with_reader(cfg, code, &file, &reader)
         }));
         match r {
-            Ok(Ok(res)) => out.push(serde_json::json!({"ok": serde_json::to_value(&res).unwrap(), "prefix": cfg.local_var_prefix})),
+            Ok(Ok(res)) => {
+                let mut o = serde_json::json!({"ok": serde_json::to_value(&res).unwrap(), "prefix": cfg.local_var_prefix});
+                // C06 H6: static scope oracle over the emitted text (own parser instance)
+                if job["scopecheck"].as_bool().unwrap_or(false) {
+                    let content = o["ok"]["content"].as_str().unwrap_or("").to_string();
+                    if !content.is_empty() {
+                        o["scope"] = match std::panic::catch_unwind(|| scope::scope_check(&content, &cfg.local_var_prefix)) {
+                            Ok(Ok((f, uses, lets))) => serde_json::json!({"findings": f.iter().map(|x| serde_json::json!({"key": x.key, "detail": x.detail})).collect::<Vec<_>>(), "uses": uses, "lets": lets}),
+                            Ok(Err(e)) => serde_json::json!({"parse_error": e}),
+                            Err(_) => serde_json::json!({"parse_error": "harness parser panicked"}),
+                        };
+                    }
+                }
+                if let Some(src) = source_for_answer {
+                    o["source"] = serde_json::Value::String(src);
+                }
+                out.push(o)
+            }
             Ok(Err(e)) => out.push(serde_json::json!({"err": e})),
             Err(_) => {
                 let (m, l) = exec::take_last_panic().unwrap_or_default();
